@@ -12,7 +12,7 @@ for d in "$SRC"/REFACTOR/*/; do
   N=$(basename "$d"); OUT=refactors/$SET-$N; mkdir -p "$OUT"
   cp "$d/patch.diff" "$d/meta.json" "$OUT/" 2>/dev/null
   git -C $WT checkout -q -- . ; git -C $WT clean -fdq
-  if ! git -C $WT apply "$OUT/patch.diff" 2>/tmp/rfe-$SET.err; then echo "$SET-$N: patch does not apply"; continue; fi
+  if ! git -C $WT apply "$PWD/$OUT/patch.diff" 2>/tmp/rfe-$SET.err; then echo "$SET-$N: patch does not apply"; continue; fi
   rm -rf /tmp/rfe-out-$SET; mkdir -p /tmp/rfe-out-$SET
   jq -r '.checks[].property_id' MANIFEST.json | CALINT_REPO=$WT CALINT_VERIF=/tmp/rfe-out-$SET xargs -P $P -I{} sh -c \
     './check {} quick > /tmp/rfe-out-'$SET'/{}.log 2>&1; echo "{} $?"' > /tmp/rfe-out-$SET/exits.txt
